@@ -172,6 +172,9 @@ def _sig(data, fmt, blanks, minT, maxT, thr):
     return (fmt, blanks, thr, minT is None, maxT is None, tuple(pat))
 
 
+_MISSING = object()
+
+
 def _str_pre(ctx):
     try:
         data = plain_of_dict(ctx.arg(0, "tg"))
@@ -188,7 +191,8 @@ def _str_pre(ctx):
 
 def _str_post(ctx):
     data, fmt, blanks, minT, maxT, thr = ctx.pre
-    case = {"call": "write", "tg": snap_like(data), "format": fmt, "blanks": blanks, "minT": minT, "maxT": maxT, "thr": thr}
+    case = {"call": "write", "tg": snap_like(data), "format": fmt, "blanks": blanks, "minT": minT, "maxT": maxT, "thr": thr,
+            "thr_named": ctx.arg(5, "minimumIntervalLength", _MISSING) is not _MISSING}
     sig = _sig(data, fmt, blanks, minT, maxT, thr)
     mech = {"format": fmt, "blanks": blanks, "thr": thr, "exc": type(ctx.exc).__name__ if ctx.exc else None}
     REC.outcome("write", ctx.exc)
@@ -263,7 +267,8 @@ def _save_post(ctx):
             return
     if ctx.exc is None and req is not None and not must_raise(req[0], req[2], req[3], req[4]):
         data, fmt, blanks, minT, maxT, thr = req
-        case = {"call": "save", "tg": snap_like(data), "format": fmt, "blanks": blanks, "minT": minT, "maxT": maxT, "thr": thr}
+        case = {"call": "save", "tg": snap_like(data), "format": fmt, "blanks": blanks, "minT": minT, "maxT": maxT, "thr": thr,
+                "thr_named": ctx.arg(5, "minimumIntervalLength", _MISSING) is not _MISSING}
         sig = ("save",) + tuple(_sig(data, fmt, blanks, minT, maxT, thr))
         try:
             text = open(fn, "rb").read().decode("utf-8")
@@ -340,7 +345,14 @@ def drive(tg, data, fmt, blanks, minT, maxT, thr, work, k):
         fn = os.path.join(str(work), "c04_%d" % (k % 3))
         with open(fn, "w") as fd:
             fd.write("pre-existing %d\n" % k)
-        call(tg.save, fn, fmt, blanks, minT, maxT, thr, ("silence", "warning", "error")[(k // 5) % 3])
+        if thr == 1e-8 and k % 2:  # the threshold the caller gets without naming one (documented: 1e-8)
+            REC.cls("C04:default-threshold")
+            call(tg.save, fn, fmt, blanks, minT, maxT, reportingMode=("silence", "warning", "error")[(k // 5) % 3])
+        else:
+            call(tg.save, fn, fmt, blanks, minT, maxT, thr, ("silence", "warning", "error")[(k // 5) % 3])
+    elif thr == 1e-8 and k % 3 == 0:
+        REC.cls("C04:default-threshold")
+        call(textgrid_io.getTextgridAsStr, _tgToDictionary(tg), fmt, blanks, minT, maxT)
     else:
         call(textgrid_io.getTextgridAsStr, _tgToDictionary(tg), fmt, blanks, minT, maxT, thr)
 
@@ -445,11 +457,17 @@ def replay(v, work):
         with core.paused():
             tg = snap.build_tg(c["tg"])
         if c["call"] == "write":
-            call(textgrid_io.getTextgridAsStr, _tgToDictionary(tg), c["format"], c["blanks"], c["minT"], c["maxT"], c["thr"])
+            if c.get("thr_named", True):
+                call(textgrid_io.getTextgridAsStr, _tgToDictionary(tg), c["format"], c["blanks"], c["minT"], c["maxT"], c["thr"])
+            else:
+                call(textgrid_io.getTextgridAsStr, _tgToDictionary(tg), c["format"], c["blanks"], c["minT"], c["maxT"])
         elif c["call"] == "save-twice":
             call(tg.save, os.path.join(str(work), "replay_dest"), *c["args"], **c["kwargs"])
         elif c["call"] == "save":
-            call(tg.save, os.path.join(str(work), "replay_dest"), c["format"], c["blanks"], c["minT"], c["maxT"], c["thr"], "silence")
+            if c.get("thr_named", True):
+                call(tg.save, os.path.join(str(work), "replay_dest"), c["format"], c["blanks"], c["minT"], c["maxT"], c["thr"], "silence")
+            else:
+                call(tg.save, os.path.join(str(work), "replay_dest"), c["format"], c["blanks"], c["minT"], c["maxT"], reportingMode="silence")
         else:
             fn = os.path.join(str(work), "replay_dest")
             with open(fn, "w") as fd:
